@@ -25,8 +25,11 @@
 
 #include <vector>
 #include <string>
+#include <string_view>
 #include <tuple>
 #include <type_traits>
+#include <cmath>
+#include <cstdio>
 
 namespace mp {
 
@@ -108,6 +111,30 @@ public:
     return *this;
   }
 
+  /// Escape a string for a JSON string literal (RFC 8259):
+  /// quote, backslash, control characters.
+  static std::string EscapeJSON(std::string_view s) {
+    std::string r;
+    r.reserve(s.size());
+    for (unsigned char c: s) {
+      switch (c) {
+      case '"': r += "\\\""; break;
+      case '\\': r += "\\\\"; break;
+      case '\n': r += "\\n"; break;
+      case '\r': r += "\\r"; break;
+      case '\t': r += "\\t"; break;
+      default:
+        if (c < 0x20) {
+          char buf[8];
+          std::snprintf(buf, sizeof buf, "\\u%04x", (unsigned)c);
+          r += buf;
+        } else
+          r += (char)c;
+      }
+    }
+    return r;
+  }
+
   /// Close node.
   /// Call this before writing to any non-child nodes,
   /// if not exiting the scope which calls the destructor.
@@ -186,6 +213,13 @@ protected:
   template <class Value>
   void DoWriteScalar(const Value& val) {
     MakeScalarIfUnset();
+    if constexpr (std::is_floating_point_v<Value>) {
+      if (!std::isfinite(val)) {       // inf / nan are not JSON numbers
+        wrt_.write("\"{}\"", val);
+        ++n_written_;
+        return;
+      }
+    }
     wrt_.write("{}", val);
     ++n_written_;
   }
@@ -193,7 +227,7 @@ protected:
   template <class Str>
   void DoWriteString(const Str& val) {
     MakeScalarIfUnset();
-    wrt_.write("\"{}\"", val);
+    wrt_.write("\"{}\"", EscapeJSON(val));
     ++n_written_;
   }
 
